@@ -139,3 +139,21 @@ macro_rules! instantiate_pke {
         $crate::h!(pke_unseal_arbitrary_above, pke_unseal_arbitrary::<$v, { $len + 1 }>($rcpt.sk));
     };
 }
+
+#[macro_export]
+macro_rules! instantiate_keys {
+    (V = $v:ty, PUB_LEN = $pl:expr, SEC_LEN = $sl:expr, PUB_IN_SECRET = $pis:expr, PUB_LENS = $pls:expr, ID_DOM = $dom:expr, ID_PREFIX = $pfx:expr, PASERK = $pk:expr) => {
+        $crate::h!(c08_local_key_codec_n32, local_key_codec::<$v, 32>());
+        $crate::h!(c08_local_key_codec_n31, local_key_codec::<$v, 31>());
+        $crate::h!(c08_local_key_codec_n33, local_key_codec::<$v, 33>());
+        $crate::h!(c08_local_key_codec_n64, local_key_codec::<$v, 64>());
+        $crate::h!(c08_signing_key_codec, signing_key_codec::<$v>($pl, $sl, $pis));
+        $crate::h!(c08_asym_wrong_len_short, asym_key_wrong_len::<$v, { $pl - 1 }>($pls, &[$sl]));
+        $crate::h!(c08_asym_wrong_len_long, asym_key_wrong_len::<$v, { $sl + 1 }>($pls, &[$sl]));
+        $crate::h!(c08_asym_wrong_len_33, asym_key_wrong_len::<$v, 33>($pls, &[$sl]));
+        $crate::h!(c04_key_decode_empty, key_decode_empty::<$v>());
+        $crate::h!(c13_id_transcript_lid, id_transcript::<$v>($dom, $pfx, $pk, ".lid."));
+        $crate::h!(c13_id_transcript_sid, id_transcript::<$v>($dom, $pfx, $pk, ".sid."));
+        $crate::h!(c13_id_transcript_pid, id_transcript::<$v>($dom, $pfx, $pk, ".pid."));
+    };
+}
